@@ -122,7 +122,8 @@ func (e *Engine) runVC(vc *VC, fn *ssa.Function, fc *FuncContract, splitVals []i
 			sv.C[1] = bvLit(64, 0)
 		case *types.Interface:
 			if !fc.mayNil(nameAt(names, i)) {
-				vc.assume(not(eq(sv.C[0], bvLit(tidBits, 0))))
+				// a non-nil interface parameter holds an object (not a typed nil pointer)
+				vc.assume(and(not(eq(sv.C[0], bvLit(tidBits, 0))), not(eq(sv.C[1], bvLit(refBits, 0)))))
 			}
 		}
 		params = append(params, sv)
@@ -145,6 +146,11 @@ func (e *Engine) runVC(vc *VC, fn *ssa.Function, fc *FuncContract, splitVals []i
 		case *types.Interface:
 			refs = append(refs, sv.C[1])
 			refNames = append(refNames, nameAt(names, i))
+		case *types.Basic:
+			if isString(sv.T) {
+				refs = append(refs, sv.C[0])
+				refNames = append(refNames, nameAt(names, i))
+			}
 		}
 	}
 	for i := range refs {
